@@ -26,10 +26,11 @@ from common import VERIF, NCPU, coq_list, coq_N
 
 LEVEL = 'proof'
 ASSUMPTIONS = [
-    'every create/rewrite/touch gives the file a modification time it never had before (the harness forces it with os.utime; mtime granularity of the OS is outside the model)',
+    'every create/rewrite/touch gives the file a modification time it never had before (the harness forces it with os.utime, not monotonically; mtime granularity of the OS is outside the model)',
     'the disk does not change while a request is being served; files are not deleted, __init__.py is not removed, no module is shadowed from an earlier root (outside the property)',
-    'module text is abstracted to one binding per line (class / import / from-import / star-import); the import graph of generated projects is acyclic',
-    'fuel: the model answers OOF (never a normal value) when its fuel is exhausted; the correspondence counts OOF as a disagreement',
+    'module text is abstracted to one binding per line (class / import / from-import / star-import); the renderer abstract module -> Python text is trusted; the import graph of generated projects is acyclic (checked in Coq per history: hypotheses of C09_acyclic)',
+    'fuel: the model answers OOF (never a normal value) when its fuel is exhausted; C09_fuel_suffices bounds the fuel on acyclic projects; the correspondence counts OOF as a disagreement',
+    'the reference "brand-new project" is a new Project in the same interpreter; a new interpreter is used as oracle only when the model correspondence fails while the in-process comparison passes',
 ]
 
 FUEL = 24
@@ -157,17 +158,29 @@ class Runner(object):
     against a brand-new one.  All requests go through supp.server.Server methods, i.e. exactly the
     `with self.project.check_changes():` wrapper of server.py."""
 
-    def __init__(self, token, packages=(), rel_ok=False, base=None):
+    def __init__(self, token, packages=(), rel_ok=False, base=None, root=None):
         from supp.server import Server
         from supp.project import Project
         self.Server, self.Project = Server, Project
         self.nm = Namer(token)
         self.packages = set(tuple(p) for p in packages)
         self.rel_ok = rel_ok
-        self.root = tempfile.mkdtemp(prefix='c09_', dir=base)
         self.clock = 1500000000
         self.ticks = 0
         self.files = {}
+        if root is not None:
+            # attach to an existing tree: rebuild the file -> module map from the names on disk
+            self.root = root
+            for dp, _dn, fns in os.walk(root):
+                for fn in fns:
+                    rel = os.path.relpath(os.path.join(dp, fn), root)[:-3].split(os.sep)
+                    if rel[-1] == '__init__':
+                        rel = rel[:-1]
+                    codes = [self.nm.code(c[len(token):] if i == 0 else c) for i, c in enumerate(rel)]
+                    if rel and rel[0].startswith(token) and None not in codes:
+                        self.files[os.path.join(dp, fn)] = tuple(codes)
+        else:
+            self.root = tempfile.mkdtemp(prefix='c09_', dir=base)
         self.long = self.new_server()
         self.mainfile = os.path.join(self.root, self.nm.token + MAIN + '.py')
 
@@ -273,6 +286,47 @@ class Runner(object):
         return la, fa
 
 
+ORACLE_CODE = """
+import sys, json, logging
+sys.path.insert(0, sys.argv[1])
+import common
+common.ensure_repo_on_path()
+logging.getLogger('supp').setLevel(logging.CRITICAL)
+from props import c09
+root, token, packages, req = sys.argv[2], sys.argv[3], json.loads(sys.argv[4]), json.loads(sys.argv[5])
+r = c09.Runner(token, packages=packages, root=root)
+print(json.dumps(r.ask(r.long, req)))
+"""
+
+
+def ask_new_process(runner, req):
+    """the same request answered by a new Project in a new interpreter (nothing can have survived)"""
+    from common import run_py
+    rc, out, err = run_py(ORACLE_CODE, [os.path.join(VERIF, 'harness'), runner.root, runner.nm.token,
+                                        json.dumps(sorted(map(list, runner.packages))), json.dumps(req)], timeout=120)
+    if rc != 0:
+        raise RuntimeError('oracle process failed: ' + err[-500:])
+    return json.loads(out.strip().split('\n')[-1])
+
+
+def run_history_new_process(ctx, h, token):
+    """long-lived answers vs answers of a new interpreter, request by request (slow: failure path only)"""
+    r = Runner(token, packages=h.get('packages', ()), rel_ok=h.get('rel_ok', False), base=ctx.scratch)
+    la, pa = [], []
+    try:
+        for o in h['ops']:
+            if o[0] == 'W':
+                r.write(o[1], o[2])
+            elif o[0] == 'T':
+                r.touch(o[1])
+            else:
+                la.append(r.ask(r.long, o[1]))
+                pa.append(ask_new_process(r, o[1]))
+    finally:
+        r.close()
+    return la, pa
+
+
 def cached_modules(server):
     """informational only (private attribute): module names in the cross-request cache"""
     try:
@@ -295,9 +349,9 @@ def exhaustive_alphabet():
     a reference to a module z that does not exist yet) and a small alphabet of operations."""
     setup = [
         ['W', C, [['D', NC, [20]]]],
-        ['W', B_, [['F', NB, C, NC], ['F', NX, Z, NX]]],
+        ['W', B_, [['F', NB, C, NC], ['F', NX, Z, NX], ['F', 7, P, 7]]],
         ['W', A, [['S', B_]]],
-        ['W', P, [['F', 5, P, 5], ['D', 13, [22]]]],
+        ['W', P, [['I', 5, S], ['D', 13, [22]]]],
         ['W', S, [['S', C], ['D', 14, [23]]]],
     ]
     reqs = [
@@ -307,6 +361,7 @@ def exhaustive_alphabet():
         ['main', [['F', 5, P, 5]], ['attrs', 5, NC]],       # p.s.C. (submodule, then star)
         ['main', [['F', NB, A, NB]], ['loc', NB]],          # definition chain
         ['fromimport', P],
+        ['main', [['I', 2, B_]], ['attrs', 2, 7]],          # b.t. where b: from p import t and p.t does not exist yet
     ]
     edits = [
         ['W', C, [['D', NC, [21]], ['D', 15, []]]],         # rewrite c: new attribute, new name
@@ -316,6 +371,10 @@ def exhaustive_alphabet():
         ['W', [4, 7], [['D', 16, []]]],                     # new submodule p.t
     ]
     return setup, [['R', r] for r in reqs] + edits
+
+
+# ranks witnessing that every disk reachable in the exhaustive part is acyclic (C09_acyclic)
+EXH_RANKS = [[Z, 0], [[4, 7], 0], [C, 1], [S, 2], [P, 3], [B_, 4], [A, 5]]
 
 
 def gen_universe(rng):
@@ -450,7 +509,8 @@ def gen_history(rng, maxlen):
             cur[tuple(mods[i])] = c
         else:
             ops.append(['T', rng.choice(mods)])
-    return {'ops': ops, 'packages': packages, 'rel_ok': True}
+    ranks = [[m, len(mods) - 1 - i] for i, m in enumerate(mods)]
+    return {'ops': ops, 'packages': packages, 'rel_ok': True, 'ranks': ranks}
 
 
 def is_nontrivial(ops):
@@ -466,21 +526,138 @@ def is_nontrivial(ops):
     return False
 
 
+
+# --------------------------------------------------------------------------------------------
+# raw scenarios: real Python text beyond the modelled fragment (inheritance across modules, instances,
+# functions, dotted imports, underscore names, relative imports) - direct evaluator only
+# --------------------------------------------------------------------------------------------
+
+RAW_SCENARIOS = [
+    {'name': 'inheritance',
+     'files': {'@c.py': 'class Base:\n    x = 1\n    def m(self):\n        self.inst_attr = 1\n',
+               '@b.py': 'from @c import Base\nclass Mid(Base):\n    y = 1\n',
+               '@a.py': 'from @b import Mid\nclass Top(Mid):\n    z = 1\ntop = Top()\n'},
+     'requests': [('assist', 'from @a import Top\nTop.'), ('assist', 'from @a import top\ntop.'),
+                  ('assist', 'import @a\n@a.Top().'), ('location', 'from @a import Top\nTop.x')],
+     'edits': [('@c.py', 'class Base:\n    x = 1\n    new_attr = 2\n    def m(self):\n        self.other = 1\n'),
+               ('@b.py', 'from @c import Base\nclass Mid(Base):\n    y2 = 1\n'),
+               ('@c.py', None)]},
+    {'name': 'functions-and-values',
+     'files': {'@c.py': 'class K:\n    k1 = 1\ndef make():\n    return K()\nvalue = make()\n',
+               '@b.py': 'from @c import make, value\nresult = make()\n',
+               '@a.py': 'from @b import *\n'},
+     'requests': [('assist', 'from @a import *\nresult.'), ('assist', 'from @a import *\nvalue.'),
+                  ('assist', 'from @a import *\nmake().'), ('lint', 'from @a import *\nprint(result, value, missing)\n')],
+     'edits': [('@c.py', 'class K:\n    k2 = 1\ndef make():\n    return K()\nvalue = make()\n'),
+               ('@c.py', 'class K:\n    k1 = 1\nclass L:\n    l1 = 1\ndef make():\n    return L()\nvalue = K()\n'),
+               ('@b.py', 'from @c import make, value\nresult = value\nmissing = 1\n')]},
+    {'name': 'dotted-import-and-underscore',
+     'files': {'@p/__init__.py': 'from .s import S, _hidden\n',
+               '@p/s.py': 'class S:\n    s1 = 1\n_hidden = 1\n_also = 2\nvisible = 3\n',
+               '@a.py': 'import @p.s\nfrom @p.s import *\n'},
+     'requests': [('assist', 'import @p.s\n@p.s.'), ('assist', 'import @a\n@a.'), ('assist', 'import @p.s\n@p.s.S.'),
+                  ('assist', 'from @p import '), ('assist', 'from @a import *\n')],
+     'edits': [('@p/s.py', 'class S:\n    s2 = 1\n_hidden = 1\nvisible2 = 3\n'),
+               ('@p/t.py', 'class T:\n    t1 = 1\n'),
+               ('@p/__init__.py', 'from .s import S, _hidden\nfrom . import t\n')]},
+]
+
+
+def run_raw(base, token, sc, seq):
+    """seq: indices into requests (>= 0) and edits (< 0: -1 - k). Returns (long answers, fresh answers)."""
+    from supp.server import Server
+    from supp.project import Project
+    root = tempfile.mkdtemp(prefix='c09raw_', dir=base)
+    clock = [1500000000]
+
+    def put(rel, text):
+        fn = os.path.join(root, rel.replace('@', token))
+        os.makedirs(os.path.dirname(fn), exist_ok=True)
+        if text is not None:
+            with open(fn, 'w') as f:
+                f.write(text.replace('@', token))
+        elif not os.path.exists(fn):
+            return
+        clock[0] += 7
+        os.utime(fn, (clock[0], clock[0]))
+
+    def server():
+        s = Server(None)
+        s.project = Project([root])
+        return s
+
+    def ask(srv, kind, src):
+        src = src.replace('@', token)
+        main = os.path.join(root, token + 'main.py')
+        lines = src.split('\n')
+        pos = [len(lines), len(lines[-1])]
+        try:
+            if kind == 'assist':
+                return ['names', sorted(n for n in srv.assist(src, pos, main)[1] if n not in BUILTIN_NAMES and not n.startswith('__'))]
+            if kind == 'location':
+                res = srv.location(src, pos, main)
+                return ['loc', json.loads(json.dumps(res).replace(root, ''))]
+            return ['lint', sorted(map(list, (r[:2] for r in srv.lint(src, main))))]
+        except Exception as e:
+            return ['exception', e.__class__.__name__]
+
+    try:
+        for rel, text in sc['files'].items():
+            put(rel, text)
+        long = server()
+        la, fa = [], []
+        for k in seq:
+            if k < 0:
+                put(*sc['edits'][-1 - k])
+            else:
+                la.append(ask(long, *sc['requests'][k]))
+                fa.append(ask(server(), *sc['requests'][k]))
+        return la, fa
+    finally:
+        shutil.rmtree(root, ignore_errors=True)
+
+
+def _raw_worker(args):
+    base, token, si, seq = args
+    return run_raw(base, token, RAW_SCENARIOS[si], seq)
+
+
+def raw_jobs(ctx, token, maxlen):
+    jobs = []
+    for si, sc in enumerate(RAW_SCENARIOS):
+        alphabet = list(range(len(sc['requests']))) + [-1 - k for k in range(len(sc['edits']))]
+        for n in range(2, maxlen + 1):
+            for seq in itertools.product(alphabet, repeat=n):
+                if seq[-1] >= 0 and any(k < 0 for k in seq):
+                    jobs.append((ctx.scratch, token, si, list(seq)))
+    return jobs
+
 # --------------------------------------------------------------------------------------------
 # the check
 # --------------------------------------------------------------------------------------------
 
 PRELUDE = '''
 Definition fuel := %d%%nat.
-Definition check_case (c : list op * list ans * list ans) : bool :=
+Definition case := (list op * list ans * list ans * list (modname * nat))%%type.
+Definition check_case (c : case) : bool :=
   match c with
-  | (ops, long, fresh) =>
+  | (ops, long, fresh, _) =>
       all_match (answers Repaired fuel ops) long && all_match (fresh_answers fuel ops) fresh
       && all_match (ref_answers fuel ops) fresh
   end.
-Definition sensitive (c : list op * list ans * list ans) : bool :=
+Definition sensitive (c : case) : bool :=
   match c with
-  | (ops, long, _) => negb (all_match (answers AsIs fuel ops) long)
+  | (ops, long, _, _) => negb (all_match (answers AsIs fuel ops) long)
+  end.
+(* the hypotheses of C09_acyclic hold at every request of the history, with R + 1 <= fuel *)
+Definition acyclic (c : case) : bool :=
+  match c with
+  | (ops, _, _, ranks) =>
+      let rk := fun m => match alookup mod_eqb ranks m with Some r => r | None => 0 end in
+      let R := S (fold_right Nat.max 0 (map snd ranks)) in
+      Nat.leb (R + 1) fuel &&
+      forallb (fun o => match o with (d, _, _) => rankedb d rk && rank_boundb d rk R end)
+              (snd (run Repaired 0 init_world ops))
   end.
 ''' % FUEL
 
@@ -490,7 +667,8 @@ def case_term(h, la, fa):
     gf = [g_ans(a) for a in fa]
     if any(x is None for x in gl + gf):
         return None
-    return '(%s, %s, %s)' % (coq_list([g_op(o) for o in h['ops']]), coq_list(gl), coq_list(gf))
+    ranks = coq_list(['(%s, %d%%nat)' % (g_mod(m), r) for m, r in h.get('ranks', [])])
+    return '(%s, %s, %s, %s)' % (coq_list([g_op(o) for o in h['ops']]), coq_list(gl), coq_list(gf), ranks)
 
 
 def run_history(ctx, h, token):
@@ -546,7 +724,7 @@ def run(ctx):
     logging.getLogger('supp').setLevel(logging.CRITICAL)   # "Failed import of ..." is expected noise
     proof_ok = ctx.coq_props()
     cov = ctx.coverage
-    cov['rule'] = ('histories = corpus + every sequence of length <= L over a fixed alphabet of 6 requests and 5 edits on a '
+    cov['rule'] = ('histories = corpus + every sequence of length <= L over a fixed alphabet of 7 requests and 5 edits on a '
                    'fixed 5-module project + random histories (3-6 modules, 1-2 packages, acyclic import graph, up to 40 ops); '
                    'direct: every request answered by the long-lived project (via supp.server.Server) and by a new Project on '
                    'the same disk must be equal; (I)/(R): Model.Cache answers/fresh_answers evaluated in Coq on the same history '
@@ -569,7 +747,8 @@ def run(ctx):
         for seq in itertools.product(alphabet, repeat=n):
             if not any(o[0] == 'R' for o in seq):
                 continue
-            histories.append({'ops': setup + list(seq), 'packages': [P], 'rel_ok': False, 'origin': 'exhaustive'})
+            histories.append({'ops': setup + list(seq), 'packages': [P], 'rel_ok': False, 'origin': 'exhaustive',
+                              'ranks': EXH_RANKS})
     nexh = len(histories) - ncorpus
 
     for i in range(ctx.pick(250, 2500)):
@@ -621,24 +800,69 @@ def run(ctx):
                       % ([a for a in la if g_ans(a) is None][:2],),
                       {'kind': 'unmodelled-answer', 'history': h, 'long': la}, found_input=False)
 
+    # ---- raw scenarios (direct only) ----------------------------------------------------------------------
+    import multiprocessing
+    rjobs = raw_jobs(ctx, token, ctx.pick(3, 4))
+    with multiprocessing.get_context('fork').Pool(max(1, min(NCPU // 2, 8))) as pool:
+        rres = pool.map(_raw_worker, rjobs, chunksize=16)
+    nraw_bad = 0
+    for (_b, _t, si, seq), (la, fa) in zip(rjobs, rres):
+        ctx.count(('raw', si, tuple(seq)), nontrivial=True)
+        ctx.histogram('origin', 'raw:' + RAW_SCENARIOS[si]['name'])
+        for a in la:
+            ctx.histogram('answer_kind', 'raw-' + a[0])
+        i = first_difference(la, fa)
+        if i is not None:
+            nraw_bad += 1
+            if nraw_bad <= 2:
+                ctx.violation('raw scenario %r: long-lived project answers %r, a new project on the same disk answers %r'
+                              % (RAW_SCENARIOS[si]['name'], la[i], fa[i]),
+                              {'kind': 'direct-raw', 'scenario': si, 'seq': seq, 'long': la, 'fresh': fa})
+    cov['raw_histories'] = len(rjobs)
+    cov['raw_direct_disagreements'] = nraw_bad
+    ctx.log('raw scenarios: %d histories, %d disagreements' % (len(rjobs), nraw_bad))
+
     # ---- (I)/(R): the model evaluated inside Coq on the same histories ------------------------------
     ctx.log('real code done on %d histories; evaluating the model in Coq' % len(histories))
-    shard = ctx.pick(100, 250)
+    shard = min(300, max(40, -(-len(terms) // NCPU)))   # about one round of parallel coqc jobs
     jobs = []
     for off in range(0, len(terms), shard):
-        pre = PRELUDE + '\nDefinition cases__ := %s.\n' % coq_list(terms[off:off + shard])
-        jobs.append((['Model.Cache'], pre, ['bad_idx check_case cases__', 'bad_idx (fun c => negb (sensitive c)) cases__']))
-    bad, sens = [], []
+        pre = PRELUDE + '\nDefinition cases__ : list case := %s.\n' % coq_list(terms[off:off + shard])
+        jobs.append((['Model.Cache', 'Proofs.CacheProofs'], pre,
+                     ['bad_idx check_case cases__', 'bad_idx (fun c => negb (sensitive c)) cases__',
+                      'bad_idx acyclic cases__']))
+    bad, sens, cyc = [], [], []
     for k, res in enumerate(ctx.coq_eval_many(jobs)):
         bad.extend(k * shard + i for i in res[0])
         sens.extend(k * shard + i for i in res[1])
+        cyc.extend(k * shard + i for i in res[2])
+    cyc = [i for i in cyc if kept[i][0].get('ranks')]
+    cov['histories_in_the_domain_of_C09_acyclic'] = sum(1 for k in kept if k[0].get('ranks')) - len(cyc)
+    if cyc:
+        raise RuntimeError('generator produced a history whose disk is not acyclic for its declared ranks: %r'
+                           % (kept[cyc[0]][0],))
     cov['correspondence_cases'] = len(terms)
     cov['correspondence_disagreements'] = len(bad)
     cov['histories_on_which_the_pinned_policy_model_is_stale'] = len(sens)
     for i in sens:
         ctx.histogram('pinned_policy_model_stale_by_origin', kept[i][0]['origin'].split('/')[0])
     ctx.log('model evaluated: %d disagreements' % len(bad))
+    found_by_process = 0
     if bad and not ndirect:
+        # the in-process "new Project" may share state with the long-lived one (process-wide caches):
+        # search for a concrete failing input against a new interpreter
+        for i in bad[:6]:
+            h, la, fa = kept[i]
+            la2, pa = run_history_new_process(ctx, h, token)
+            j = first_difference(la2, pa)
+            if j is not None:
+                found_by_process += 1
+                ctx.violation('long-lived project answers %r, a new project in a new interpreter on the same disk answers %r '
+                              '(request #%d of the history); the in-process new Project agrees with the long-lived one, '
+                              'so state survives outside the Project' % (la2[j], pa[j], j),
+                              {'kind': 'direct-new-process', 'history': h, 'long': la2, 'new_process': pa})
+                break
+    if bad and not ndirect and not found_by_process:
         h, la, fa = kept[bad[0]]
         ctx.violation('correspondence Model.Cache (answers Repaired / fresh_answers) vs supp.project no longer checks '
                       '(%d of %d histories disagree); theorems C09_* are about a model that is not the code' % (len(bad), len(terms)),
@@ -651,12 +875,21 @@ def run(ctx):
 
 
 def replay(ctx, obj):
+    logging.getLogger('supp').setLevel(logging.CRITICAL)
     r = obj['replay']
+    if r.get('kind') == 'direct-raw':
+        la, fa = run_raw(ctx.scratch, 'c09replayx', RAW_SCENARIOS[r['scenario']], r['seq'])
+        for i, (a, b) in enumerate(zip(la, fa)):
+            print('request #%d long-lived=%r fresh=%r %s' % (i, a, b, '' if a == b else '   <-- DIFFERENT'))
+        return 1 if first_difference(la, fa) is not None else 0
     h = r.get('history')
     if not h:
         print(obj.get('what'))
         return 1
-    la, fa, cached = run_history(ctx, h, 'c09replayx')
+    if r.get('kind') == 'direct-new-process':
+        la, fa = run_history_new_process(ctx, h, 'c09replayx')
+    else:
+        la, fa, cached = run_history(ctx, h, 'c09replayx')
     for i, (a, b) in enumerate(zip(la, fa)):
         print('request #%d long-lived=%r fresh=%r %s' % (i, a, b, '' if a == b else '   <-- DIFFERENT'))
     return 1 if first_difference(la, fa) is not None else 0
